@@ -43,7 +43,7 @@ CHECKS = {
          "Trusted: the OS gives different address-space layout and per-process random state to child processes (observed and recorded).", "6/C12"),
  "C13": ("exact differential monitor: sketcher after random pre-history + reinit/reset vs freshly constructed sketcher on the same input, including secondary observables",
          "exploration", "Seven sketcher families, pre-histories with partial streams, (un)finished densification, merges, clipped registers.", "Trusted: -", "6/C13"),
- "C14": ("exact oracle monitor for the counting estimators (agreements/length recomputed by the harness, symmetry, length mismatch reported) and a totality monitor of the MLE run in child processes",
+ "C14": ("exact oracle monitor for the counting estimators (agreements/length recomputed by the harness, symmetry, length mismatch reported) and a totality monitor of the MLE run in child processes; the length-mismatch clause also in a second build without debug assertions",
          "exploration", "Planted agreement patterns over all element types and lengths; MLE on nested/unequal/identical/disjoint pairs, several b.", "Trusted: -", "6/C14"),
  "C15": ("model-based runtime monitor: shadow Vec of per-slot minima compared with the real tracker after every operation; bounded exhaustive enumeration of short histories",
          "exploration", "Every m in 1..130 and larger ones, tie-heavy alphabets, resets; all sequences of length <= 6 over m <= 5 and 3 values.", "Trusted: the guarded public wrapper forwards to the private tracker.", "6/C15"),
